@@ -111,6 +111,10 @@ def run(repo, rep):
     rule_brick_index(repo, rep, enc)
     rep.clause("C07-l", "reorder: a source weight is fetched exactly for lanes inside the volume; every other lane is zero padding (guard evaluated on probe lanes)")
     rule_lane_guard(repo, rep, enc)
+    rep.clause("C07-m", "typed allocations: sizeof's element type is the pointee type of the table it sizes")
+    rule_alloc_element_size(repo, rep, [enc, dec, mod])
+    rep.clause("C07-n", "the wrapper's call of mlw_reorder_encode passes parameter-named variables at their parameter's position")
+    rule_c_call_argument_names(repo, rep, mod, enc)
     rep.clause("C07-j", "locals of the Python encoder front end that are named after a side (ifm_ublock, ofm_ublock ..) are read from that side")
     from .shared import binding_stem_lint as _bsl7
 
@@ -656,6 +660,73 @@ def rule_lane_guard(repo, rep, enc):
     rep.check(not wrong, "C07-l", site, f"a source weight is fetched exactly for lanes inside the volume (ifm_z < ifm_depth, ofm_z < ofm_depth, ky < sub_height) on {pts} probe lanes",
               (f"`{enc.text(cond)}` is {wrong[0][1]} for ifm_z={wrong[0][0]['ifm_z']}/{wrong[0][0]['ifm_depth']}, ofm_z={wrong[0][0]['ofm_z']}/{wrong[0][0]['ofm_depth']}, ky={wrong[0][0]['ky']}/{wrong[0][0]['sub_height']}: "
                "a lane outside the volume is read from the neighbouring weights or beyond the buffer instead of being zero padding") if wrong else "")
+
+
+
+def rule_alloc_element_size(repo, rep, cus):
+    """(m) `(T*)malloc / realloc(.., n * sizeof(U))`: the element type inside sizeof is the pointee type of the cast (or `sizeof(*p)`).
+    A table of `int` grown with sizeof(int16_t) is half as large as the code that indexes it assumes: heap overflow once the table grows."""
+    n = 0
+    for cu in cus:
+        for fname in cu.functions:
+            try:
+                body = cu.body(fname)
+            except StopIteration:
+                continue
+            for c in cu.walk(body):
+                if c.get("kind") != "CStyleCastExpr":
+                    continue
+                qt = ((c.get("type") or {}).get("qualType") or "").strip()
+                if not qt.endswith("*"):
+                    continue
+                calls = [cn for cn, node in cu.calls(c) if cn in ("malloc", "realloc", "calloc")]
+                if not calls:
+                    continue
+                pointee = qt[:-1].strip()
+                sizes = [x for x in cu.walk(c) if x.get("kind") == "UnaryExprOrTypeTraitExpr" and x.get("name") == "sizeof"]
+                for sz in sizes:
+                    at = ((sz.get("argType") or {}).get("qualType") or "").strip()
+                    if not at:
+                        continue  # sizeof(expression)
+                    n += 1
+                    norm_t = lambda t: t.replace("const ", "").replace("struct ", "").strip()  # noqa: E731
+                    size_of = lambda t: 8 if norm_t(t).endswith("*") else {"char": 1, "int8_t": 1, "uint8_t": 1, "unsigned char": 1, "short": 2, "int16_t": 2, "uint16_t": 2, "int": 4, "unsigned int": 4,  # noqa: E731
+                                                                         "int32_t": 4, "uint32_t": 4, "float": 4, "long": 8, "int64_t": 8, "uint64_t": 8, "double": 8, "size_t": 8}.get(norm_t(t))
+                    if norm_t(at) != norm_t(pointee) and size_of(at) is not None and size_of(pointee) is not None and size_of(at) >= size_of(pointee):
+                        rep.ok("C07-m", f"ethosu/mlw_codec/{cu.rel.split('/')[-1]}:{fname}", f"`{cu.text(c).strip()[:70]}`", f"sizeof({at}) is not smaller than the {pointee} elements (over-allocation)")
+                        continue
+                    rep.check(norm_t(at) == norm_t(pointee), "C07-m", f"ethosu/mlw_codec/{cu.rel.split('/')[-1]}:{fname}", f"`{cu.text(c).strip()[:70]}`: sizeof({at}) for a {pointee} table",
+                              f"the block is sized with sizeof({at}) but holds {pointee} elements: after the first growth the table is smaller than its index range (heap-buffer-overflow for streams with more than one forced palette restart per 64 weights)")
+    if n < 6:
+        raise AnalysisError(f"mlw_codec: {n} typed allocations found")
+
+
+def rule_c_call_argument_names(repo, rep, mod_cu, enc):
+    """(n) the C call of mlw_reorder_encode from the Python wrapper passes, for every argument that is a plain variable named like one of
+    the callee's parameters, that variable at that parameter's position (kernel_height / kernel_width are two ints every type check
+    accepts)."""
+    decl = enc.functions.get("mlw_reorder_encode")
+    if decl is None:
+        raise AnalysisError("mlw_encode.c: mlw_reorder_encode not found")
+    params = [x.get("name") for x in decl.get("inner", []) if x.get("kind") == "ParmVarDecl"]
+    n = 0
+    for fname in mod_cu.functions:
+        try:
+            body = mod_cu.body(fname)
+        except StopIteration:
+            continue
+        for cn, call in mod_cu.calls(body):
+            if cn != "mlw_reorder_encode":
+                continue
+            args = call["inner"][1:]
+            for i, a in enumerate(args):
+                names = [x.get("referencedDecl", {}).get("name") for x in mod_cu.walk(a) if x.get("kind") == "DeclRefExpr"]
+                if len(names) == 1 and names[0] in params and i < len(params):
+                    n += 1
+                    rep.check(params[i] == names[0], "C07-n", f"{MOD}:{fname}", f"argument {i} `{names[0]}` is passed as parameter `{params[i]}` of mlw_reorder_encode",
+                              f"`{names[0]}` sits at the position of `{params[i]}`: for non-square kernels the traversal walks the wrong axes and reads rows beyond the kernel height")
+    if n < 4:
+        raise AnalysisError(f"method_reorder_encode: {n} parameter-named arguments")
 
 
 def rule_zdiv_search_space(repo, rep, enc, dec):
